@@ -8,6 +8,7 @@ mod c10;
 mod c11;
 mod c16;
 mod c17;
+mod c18;
 mod eng;
 mod probe;
 mod gen;
@@ -62,6 +63,7 @@ fn main() {
         "C05" => c05::run(&mut rng, &mut out, &tier),
         "C08" => c08::run(&mut rng, &mut out, &tier),
         "C10" => c10::run(&mut rng, &mut out, &tier),
+        "C18" => c18::run(&mut rng, &mut out, &tier),
         "probe" => probe::run(),
         "C01" => c01::run(&mut rng, &mut out, &tier),
         _ => {
